@@ -1,6 +1,7 @@
 """VM group, part 2: tag dispatch, resumable instructions, string comparison case tables."""
 from lib import ordcase as oc
 from lib import synq as q
+from lib.inline import walk_inl as W
 from lib import vmsig
 from lib.core import rule
 from lib.vmsig import cond_show, sshow, subterms
@@ -32,7 +33,7 @@ def kind_types(items):
                 continue
             kinds = set()
             style = None
-            for x in q.walk(f["body"]):
+            for x in W(f["body"]):
                 if x["k"] == "Struct" and q.last_seg(x["p"]) == "ObjectHeader":
                     for fl in x["fields"]:
                         if fl["name"] == "kind" and fl["e"]["k"] == "Path":
